@@ -234,6 +234,12 @@ def build_fixture(fxspec):
         fx["stdin"] = rng.choice([b"", b" ", b"\n"]) + _rdata(rng) + rng.choice([b"\n", b" \n", b"\r\n", b"\x00", b"\t"])
         scheme = rng.choice(["https", "http", "git", "ssh", "git+ssh", "svn", "ftp", "file"])
         fx["url"] = "%s://host%d.example.org/%s" % (scheme, rng.randrange(1000), rng.choice(["a/b.git", "x", "p?q=1#f", "é"]))
+        # every shape of URL that has a scheme: with an authority, with an empty one, without one
+        if fxspec.get("url_noauth", rng.random() < 0.5):
+            n = rng.randrange(1000)
+            fx["url"] = rng.choice(["file:///srv/git/project%d.git" % n, "lp:~user%d/project/trunk" % n,
+                                    "mailto:someone%d@example.org" % n, "urn:x-swh:%d" % n, "git://%d" % n,
+                                    "ssh://git@host%d:2222/~user/repo.git" % n, "a%d:b" % n])
         # git repository (non bare): two commits, a branch, a lightweight and an annotated tag, a tag of a tree
         repo = top(b"g")
         os.mkdir(repo)
@@ -572,6 +578,7 @@ def gen(rng, tier):
     cfgs = all_cfgs()
     for s in range(nsets):
         fx = {"seed": rng.randrange(1, 10 ** 9)}
+        fx["url_noauth"] = s % 2         # a URL without / with an empty authority (file:///x, lp:x, mailto:x)
         if s % 2 == 1:
             fx["nonutf8"] = 1            # names inside the trees and link texts that are not valid UTF-8
             fx["nonutf8_arg"] = 1        # ... and the names of the arguments themselves
